@@ -405,9 +405,12 @@ class Signals:
         if self.pending and self.app_is_main and not self.in_handler:
             self.deliver_pending(allow_raising=False)
 
-    def _on_main_seam(self, name):
+    def _on_main_seam(self, name, blocking):
+        # a handler that raises (KeyboardInterrupt) runs only where the thread is actually blocked in
+        # select / read -- "SIGINT at an arbitrary moment of a blocked request"; a call that does not
+        # block (a poll, a non-blocking read in the paste loop) is not such a moment
         if self.pending and self.app_is_main:
-            self.deliver_pending(allow_raising=name in RAISING_SEAMS)
+            self.deliver_pending(allow_raising=blocking and name in RAISING_SEAMS)
 
     def deliver_pending(self, allow_raising):
         while self.pending:
